@@ -35,7 +35,12 @@ static void s_release_oldest(void) {
     }
 }
 
-void verif_sched_point(int kind, const volatile void *addr) {
+static int s_last_tail_store_order = -1;
+
+void verif_sched_point_o(int kind, const volatile void *addr, int order) {
+    if (s_have && kind == 1 && addr == (const volatile void *)&s_ring.tail) {
+        s_last_tail_store_order = order;
+    }
     if (!s_have || !s_in_call) {
         return;
     }
@@ -50,10 +55,11 @@ void verif_sched_point(int kind, const volatile void *addr) {
         s_in_call = true;
     }
     size_t n = strlen(s_ev);
-    if (n + 3 < sizeof(s_ev)) {
+    if (n + 4 < sizeof(s_ev)) {
         s_ev[n] = kind == 0 ? 'L' : kind == 1 ? 'S' : 'X';
         s_ev[n + 1] = addr == (const volatile void *)&s_ring.tail ? 't' : addr == (const volatile void *)&s_ring.head ? 'h' : '?';
-        s_ev[n + 2] = 0;
+        s_ev[n + 2] = (char)('0' + (order >= 0 && order <= 9 ? order : 9)); /* __ATOMIC_RELAXED 0 .. __ATOMIC_SEQ_CST 5 */
+        s_ev[n + 3] = 0;
     }
     ++s_point;
 }
@@ -79,6 +85,9 @@ static void s_call_end(void) {
 static void s_reset(void) {
     if (s_have) {
         aws_ring_buffer_clean_up(&s_ring);
+        if (hc_live_blocks() != 0) { /* clean_up hands the storage back */
+            printf("P MONITOR clean_up left %ld block(s) allocated\n", hc_live_blocks());
+        }
     }
     s_have = false;
     s_head_idx = s_tail_idx = 0;
@@ -89,6 +98,8 @@ static void s_reset(void) {
 /* the library's own validity predicate (ring_buffer.inl), an observation point of the property */
 static void s_print_valid(void) {
     printf("P valid=%d\n", (int)aws_ring_buffer_is_valid(&s_ring));
+    /* head == tail exactly when nothing is outstanding (c15_is_empty_iff) */
+    printf("P empty=%d\n", (int)aws_ring_buffer_is_empty(&s_ring));
 }
 
 /* choose *dest for the call: the live handle named by the optional token, else `local` filled with a sentinel */
@@ -139,9 +150,21 @@ static void s_after_acquire(int rc, struct aws_byte_buf *dest, const struct aws_
             printf("P MONITOR inside=%d overlap=%d len=%zu\n", inside, overlap, dest->len);
         }
         memset(dest->buffer, 0xA5, dest->capacity); /* ASan: whole buffer writable */
+        /* the library's own "inside the ring" predicate: the granted buffer, a foreign one, one straddling the end */
+        {
+            uint8_t foreign_mem[4];
+            struct aws_byte_buf foreign = aws_byte_buf_from_empty_array(foreign_mem, sizeof(foreign_mem));
+            struct aws_byte_buf straddle = aws_byte_buf_from_empty_array(s_ring.allocation_end - 1, 2);
+            printf(
+                "P belongs=%d%d%d\n",
+                (int)aws_ring_buffer_buf_belongs_to_pool(&s_ring, dest),
+                (int)aws_ring_buffer_buf_belongs_to_pool(&s_ring, &foreign),
+                (int)aws_ring_buffer_buf_belongs_to_pool(&s_ring, &straddle));
+        }
         HC_CHECK(s_head_idx < MAXOUT);
         s_true[s_head_idx] = *dest;
-        s_out[s_head_idx++] = *dest;
+        s_out[s_head_idx] = *dest;
+        s_out[s_head_idx++].len = dest->capacity / 2; /* the user wrote some data: len != capacity, release goes by capacity */
     }
     printf("P outstanding=%zu\n", s_head_idx - s_tail_idx);
     s_print_valid();
@@ -179,7 +202,12 @@ int main(void) {
             int rc = aws_ring_buffer_acquire_up_to(&s_ring, hc_parse_size(t[3]), hc_parse_size(t[4]), dest);
             s_after_acquire(rc, dest, &saved, live);
         } else if (!strcmp(t[0], "rel") && n == 1) {
+            bool any = s_tail_idx < s_head_idx;
+            s_last_tail_store_order = -1;
             s_release_oldest();
+            if (any) {
+                printf("W relorder=%d\n", s_last_tail_store_order); /* the tail is published with release order */
+            }
             printf("P outstanding=%zu\n", s_head_idx - s_tail_idx);
             s_print_valid();
         } else {
